@@ -55,6 +55,62 @@ fn n_batches(prop: &str, tier: Tier) -> u64 {
     }
 }
 
+// ---------------------------------------------------------------------------
+// Exhaustive code-point sweep (C08): every Unicode scalar value in every state of the tokenizer that
+// a single character can be met in.  A tokenizer that treats *any* set of code points specially in
+// *any* of these contexts disagrees with the reference scanner on at least one of these texts.
+
+pub const SWEEP_CPS_PER_CASE: u64 = 4096;
+pub const SWEEP_CASES: u64 = 0x11_0000 / SWEEP_CPS_PER_CASE;
+/// Contexts with one text per code point: (name, text before, text after).
+const SWEEP_SINGLE: &[(&str, &str, &str)] = &[
+    ("start-of-text", "", "A"),
+    ("inside-identifier", "A", "B"),
+    ("after-dollar", "$", "x"),
+    ("after-slash", "/", "/x\nA"),
+    ("after-hash", "#", "[a]"),
+    ("after-colon", ":", ":A"),
+    ("after-terminal-identifier", "$Ab", " A"),
+];
+/// Contexts in which 256 code points share one text (one line each): (name, line before, line after).
+const SWEEP_BATCHED: &[(&str, &str, &str)] = &[
+    ("inside-comment", "// x", "y // z\nA\n"),
+    ("inside-attribute", "#[a(", ")b]\n"),
+    ("inside-attribute-string", "#[d = \"", "\"]\n"),
+    ("inside-nested-attribute-brackets", "#[a{[(", ")]}]\n"),
+];
+pub const SWEEP_SUBS_PER_CASE: u64 = SWEEP_SINGLE.len() as u64 * SWEEP_CPS_PER_CASE + SWEEP_BATCHED.len() as u64 * (SWEEP_CPS_PER_CASE / 256);
+
+/// The `j`-th text of sweep case `k`: (class, text); None where the range holds no scalar value.
+pub fn sweep_text(k: u64, j: u64) -> Option<(String, String)> {
+    let singles = SWEEP_SINGLE.len() as u64 * SWEEP_CPS_PER_CASE;
+    if j < singles {
+        let (name, pre, post) = SWEEP_SINGLE[(j / SWEEP_CPS_PER_CASE) as usize];
+        let cp = (k * SWEEP_CPS_PER_CASE + j % SWEEP_CPS_PER_CASE) as u32;
+        let c = char::from_u32(cp)?;
+        return Some((format!("code-point-sweep:{name}"), format!("{pre}{c}{post}")));
+    }
+    let b = j - singles;
+    let per = SWEEP_CPS_PER_CASE / 256;
+    if b >= SWEEP_BATCHED.len() as u64 * per {
+        return None;
+    }
+    let (name, pre, post) = SWEEP_BATCHED[(b / per) as usize];
+    let base = k * SWEEP_CPS_PER_CASE + (b % per) * 256;
+    let mut text = String::new();
+    for cp in base..base + 256 {
+        if let Some(c) = char::from_u32(cp as u32) {
+            text.push_str(pre);
+            text.push(c);
+            text.push_str(post);
+        }
+    }
+    if text.is_empty() {
+        return None;
+    }
+    Some((format!("code-point-sweep:{name}"), text))
+}
+
 /// A random syntactically valid file with varied syntax: a sentence of the Kiki grammar itself.
 fn random_valid_tokens(rng: &mut Rng) -> Vec<(K, String)> {
     with_kiki_reference(|g, _| {
@@ -320,6 +376,51 @@ fn lex_err_of(out: &GenOutcome) -> Option<(usize, Option<char>)> {
 }
 
 impl Front {
+    /// One case of the exhaustive code-point sweep: a lean comparison of the tapped tokenizer with the
+    /// reference scanner; any disagreement is handed to the full monitor (which reports it).
+    fn c08_sweep(&self, w: &mut Worker, k: u64) {
+        let mut per_class: std::collections::BTreeMap<String, u64> = Default::default();
+        let mut code_points = 0u64;
+        for j in 0..SWEEP_SUBS_PER_CASE {
+            let Some((class, text)) = sweep_text(k, j) else { continue };
+            let reference = rlex::lex(&text);
+            let tapped = crate::util::catch(|| kiki::verif_hooks::tokenize(&text));
+            let agree = match (&reference, &tapped) {
+                (Ok(rt), Ok(Ok(kt))) => {
+                    kt.len() == rt.len()
+                        && kt.iter().zip(rt.iter()).all(|(a, b)| {
+                            let v = rlex::kiki_token_view(a);
+                            v.0 == b.kind && v.1 == b.start && v.2 == text[b.start..b.end]
+                        })
+                }
+                (Err(re), Ok(Err(KikiErr::Lex(i, c)))) => (i.0, *c) == (re.index, re.ch),
+                _ => false,
+            };
+            // the public boundary, where a character could be stripped before tokenising
+            let agree = agree
+                && (j >= SWEEP_CPS_PER_CASE || {
+                    let (out, _) = kside::generate(&text, 1_000_000);
+                    match &reference {
+                        Err(re) => lex_err_of(&out) == Some((re.index, re.ch)),
+                        Ok(_) => lex_err_of(&out).is_none() && !matches!(out, GenOutcome::Panic(_)),
+                    }
+                });
+            if agree {
+                *per_class.entry(class).or_insert(0) += 1;
+                code_points += if j < SWEEP_SINGLE.len() as u64 * SWEEP_CPS_PER_CASE { 1 } else { text.chars().count() as u64 / 8 };
+            } else {
+                w.sub(j);
+                self.c08(w, &class, &text);
+            }
+        }
+        let _ = code_points;
+        for (c, n) in per_class {
+            w.eval_n(n);
+            w.count_n(&format!("class:{c}"), n);
+        }
+        w.count("code-point-sweep-cases");
+    }
+
     fn c08(&self, w: &mut Worker, class: &str, text: &str) {
         let reference = rlex::lex(text);
         let tapped = crate::util::catch(|| kiki::verif_hooks::tokenize(text));
@@ -609,12 +710,21 @@ impl Engine for Front {
         "front"
     }
     fn total_cases(&self, prop: &str, tier: Tier) -> u64 {
-        n_batches(prop, tier) + if prop == "C07" { super::stress::n_stress(tier) } else { 0 }
+        n_batches(prop, tier)
+            + match prop {
+                "C07" => super::stress::n_stress(tier),
+                "C08" => SWEEP_CASES,
+                _ => 0,
+            }
     }
     fn run_case(&self, w: &mut Worker, idx: u64) {
         let prop = w.prop.clone();
         if prop == "C07" && idx >= n_batches("C07", w.tier) {
             super::stress::run_stress_case(w, idx - n_batches("C07", w.tier));
+            return;
+        }
+        if prop == "C08" && idx >= n_batches("C08", w.tier) {
+            self.c08_sweep(w, idx - n_batches("C08", w.tier));
             return;
         }
         for sub in 0..BATCH {
@@ -633,6 +743,12 @@ impl Engine for Front {
         if prop == "C07" && idx >= n_batches("C07", tier) {
             return super::stress::describe(tier, seed, idx - n_batches("C07", tier));
         }
+        if prop == "C08" && idx >= n_batches("C08", tier) {
+            return match sweep_text(idx - n_batches("C08", tier), sub) {
+                Some((class, text)) => json!({"class": class, "text": text, "text_debug": format!("{text:?}")}),
+                None => Value::Null,
+            };
+        }
         let (class, text) = input_for(prop, tier, seed, idx, sub);
         json!({"class": class, "text": text, "text_debug": format!("{text:?}")})
     }
@@ -641,7 +757,7 @@ impl Engine for Front {
     }
     fn rule(&self, prop: &str) -> String {
         match prop {
-            "C08" => format!("inputs: every string of 1 and 2 atoms (3 in the thorough tier) over a {}-atom alphabet built to hit every lexer transition (identifier characters, digits, all punctuation and brackets, $ # / :, LF CR CRLF TAB VT FF, every kind of Unicode White_Space (U+0085 U+00A0 U+1680 U+2000..U+200A U+2028 U+2029 U+202F U+205F U+3000), look-alikes that are not whitespace (U+200B U+180E U+FEFF U+001C), 2/3/4-byte letters, non-ASCII digits / numerics / letters / combining marks (² ½ ٣ １ Ⅷ ß Ω ａ İ U+0301 U+200D), reserved words, //, #[, ::, $x, $start ...), random soups of up to 64 atoms, valid files with 1-3 character edits, prefixes of valid files cut at every kind of boundary, attribute-centred bracket soups, token soups with and without separators. One evaluation = one string tokenised by kiki (tap on the tokenizer + generate at the public boundary) compared token by token (kind, start, text) or error by error (byte index, character) with the reference scanner R-lex. Distinct non-trivial = distinct strings with >=2 tokens or a lexical error at index > 0.", gtext::ATOMS.len()),
+            "C08" => format!("inputs: every string of 1 and 2 atoms (3 in the thorough tier) over a {}-atom alphabet built to hit every lexer transition (identifier characters, digits, all punctuation and brackets, $ # / :, LF CR CRLF TAB VT FF, every kind of Unicode White_Space (U+0085 U+00A0 U+1680 U+2000..U+200A U+2028 U+2029 U+202F U+205F U+3000), look-alikes that are not whitespace (U+200B U+180E U+FEFF U+001C), 2/3/4-byte letters, non-ASCII digits / numerics / letters / combining marks (² ½ ٣ １ Ⅷ ß Ω ａ İ U+0301 U+200D), reserved words, //, #[, ::, $x, $start ...), random soups of up to 64 atoms, valid files with 1-3 character edits, prefixes of valid files cut at every kind of boundary, attribute-centred bracket soups, token soups with and without separators; plus an EXHAUSTIVE code-point sweep: every one of the 1 112 064 Unicode scalar values in each of 7 single-character contexts (start of text, inside an identifier, after $, after /, after #, after :, after a terminal identifier) and in 4 contexts inside comments and attributes (plain, in a string, in nested brackets; 256 code points per text). One evaluation = one string tokenised by kiki (tap on the tokenizer + generate at the public boundary) compared token by token (kind, start, text) or error by error (byte index, character) with the reference scanner R-lex. Distinct non-trivial = distinct strings with >=2 tokens or a lexical error at index > 0.", gtext::ATOMS.len()),
             "C09" => "inputs: lexically valid texts built from token sequences: prefix p of a valid file (repository examples, rendered grammar models, random sentences of the Kiki grammar itself) extended by each of the 17 token kinds (prefix-extension sweep), valid files with 0-3 token edits, token soups; joined with random whitespace/comments so spans are non-trivial. One evaluation = generate(text) compared with the verdict of the Kiki grammar as data under the reference canonical LR(1) recogniser (cross-checked by a hand-written predictive recogniser): accept, or Parse(start,text,end) of the first token that cannot continue any valid file, or the empty span at the end. Distinct non-trivial = distinct token-kind sequences rejected at index >=1 or accepted with >=10 tokens.".into(),
             "C10" => "inputs: syntactically valid files: (a) rendered grammar models with 0-3 injected edits (rename to an existing / hostile name, flip a reference between $terminal and nonterminal namespace, drop/duplicate start, drop/duplicate terminal enum, duplicate variant / nonterminal / terminal variant, start naming a terminal, capitalisation flips), re-laid-out at random; (b) random declarations over a 14-name pool so that every kind and combination of violation occurs. One evaluation = generate(text) compared with the set of all violations computed by R-validate from the reference AST: Ok/TableConflict only if the set is empty, otherwise the reported error (variant, name / symbol sequence, every byte position) must be an element of the set. Distinct non-trivial = distinct files (hash of the declaration structure) with >=1 violation present.".into(),
             _ => "inputs: the union of the C08, C09 and C10 workloads (character soups incl. every 1- and 2-atom string, token-level and character-level edits of valid files, prefixes, files with injected static violations, well-formed but unusual grammars) plus size/depth stress files inside the property's bounds run in separate child processes in both the optimised and the unoptimised (dev-profile) build. One evaluation = one call of generate under catch_unwind with the H2 step limit armed (limit derived from the reference automaton when the text is a well-formed grammar); panics, step-limit trips, deaths by signal and exhausted CPU budgets are the refuting events. Distinct non-trivial = distinct inputs that got past the tokenizer.".into(),
